@@ -52,6 +52,27 @@ fn do_one<P: Property>(p: &P, file: &str) -> i32 {
     0
 }
 
+/// `vcheck fuzzcase <ID> <bytes file>`: decode a fuzzer input into the property's case (debugging aid).
+fn do_fuzzcase<P: Property>(p: &P, file: &str) -> i32 {
+    let data = std::fs::read(file).expect("input file");
+    let mut features = Features::default();
+    if let Ok(off) = std::env::var("VERIF_FEATURES_OFF") {
+        for f in off.split(',').filter(|f| !f.is_empty()) {
+            features.off.insert(f.to_string());
+        }
+    }
+    match vcheck::fuzzing::decode(p, &features, Tier::Quick, &data) {
+        Some(case) => {
+            println!("{}", serde_json::to_string_pretty(&case).unwrap());
+            0
+        }
+        None => {
+            println!("undecodable");
+            2
+        }
+    }
+}
+
 fn do_replay<P: Property>(p: &P, file: &str) -> i32 {
     replay(p, &PathBuf::from(file))
 }
@@ -85,6 +106,7 @@ fn main() {
         "worker" => dispatch!(id, do_worker, &args[3]),
         "one" => dispatch!(id, do_one, &args[3]),
         "replay" => dispatch!(id, do_replay, &args[3]),
+        "fuzzcase" => dispatch!(id, do_fuzzcase, &args[3]),
         "dump16" => props::c16::child_main(&args[3]),
         _ => 2,
     };
